@@ -51,6 +51,10 @@ type c15Scenario struct {
 	// RebalanceFault: the start-up is fault-free; later a membership change closes and reopens the stream, and at that reopen
 	// the checkpoints ("load") or the sequence numbers ("seqno") cannot be loaded
 	RebalanceFault string `json:"rebalance_fault,omitempty"`
+	// RefusalKind (with reopen_fail / end_reopen_fails): what the refused re-requests fail with: 0 a plain error; 1.. an
+	// error of one of the kinds that, as a stream END cause, would be transient (socket closed, state changed, too slow,
+	// disconnected, backfill failed) - the node is still down: the retries are bounded all the same
+	RefusalKind int `json:"refusal_kind,omitempty"`
 }
 
 func (sc c15Scenario) rangeOf() (int, int) { return c16Range(sc.NumVb, sc.Total, sc.Member) }
@@ -205,15 +209,25 @@ func c15Child(raw json.RawMessage) any {
 	var started sync.WaitGroup
 	var ready bool
 	var mu sync.Mutex
+	refusal := func() error {
+		kinds := []error{nil, gocbcore.ErrSocketClosed, gocbcore.ErrDCPStreamStateChanged, gocbcore.ErrDCPStreamTooSlow, gocbcore.ErrDCPStreamDisconnected, gocbcore.ErrDCPBackfillFailed}
+		if k := kinds[sc.RefusalKind%len(kinds)]; k != nil {
+			return fmt.Errorf("injected open failure: %w", k)
+		}
+		return fmt.Errorf("injected open failure")
+	}
 	cl.openErr = func(vb uint16, nth int) error {
 		mu.Lock()
 		r := ready
 		mu.Unlock()
-		if (openBad[vb] && nth == 0) || (r && sc.ReopenFail) {
+		if openBad[vb] && nth == 0 {
 			return fmt.Errorf("injected open failure")
 		}
+		if r && sc.ReopenFail {
+			return refusal()
+		}
 		if sc.EndDuringOpen > 0 && sc.EndReopenFails && vb == uint16(lo) && nth >= 1 {
-			return fmt.Errorf("injected open failure")
+			return refusal()
 		}
 		return nil
 	}
@@ -492,6 +506,7 @@ func c15Gen(rt *rapid.T) c15Scenario {
 		sc.Reset = "earliest"
 	case "reopen":
 		sc.ReopenFail = true
+		sc.RefusalKind = rapid.IntRange(0, 5).Draw(rt, "refusalkind")
 	case "rebalance_fault":
 		sc.RebalanceFault = rapid.SampledFrom([]string{"load", "seqno"}).Draw(rt, "rebfault")
 		for i := range sc.Rel {
@@ -502,6 +517,7 @@ func c15Gen(rt *rapid.T) c15Scenario {
 	case "end_during_open":
 		sc.EndDuringOpen = rapid.IntRange(1, 8).Draw(rt, "endat")
 		sc.EndReopenFails = rapid.IntRange(0, 2).Draw(rt, "endfail") == 0
+		sc.RefusalKind = rapid.IntRange(0, 5).Draw(rt, "refusalkind2")
 		for i := range sc.Rel {
 			if sc.Rel[i] > 0 {
 				sc.Rel[i] = 0
